@@ -389,6 +389,31 @@ def open_findings(prop):
     return [f for f in known_findings() if f.get("property") == prop and f.get("status") == "open"]
 
 
+def run_open_finding_programs(res):
+    """Open known findings that come with a repro program (KNOWN_FINDINGS.json: program / argv / expect_rc): the program
+    is compiled against the current tree and run.  The recorded failure prints KNOWN-FINDING (exit code unaffected); any
+    other failure of the program is a violation; if it passes the finding no longer reproduces (reported in the evidence)."""
+    import subprocess
+    for f in open_findings(res.prop):
+        prog = f.get("program")
+        if not prog:
+            continue
+        exe = cc_harness("open_" + os.path.basename(prog).rsplit(".", 1)[0], [os.path.join(VERIF, prog)], "plain")
+        try:
+            p = subprocess.run([exe] + list(f.get("argv", [])), stdout=subprocess.PIPE, stderr=subprocess.STDOUT, timeout=90)
+            rc, out = p.returncode, p.stdout.decode("utf-8", "replace")
+        except subprocess.TimeoutExpired:
+            rc, out = -999, "timeout"
+        if rc in f.get("expect_rc", []):
+            res.known_finding(f["what"])
+            res.add_cov(**{"open_finding_%s" % f["id"]: "reproduces (rc %s)" % rc})
+        elif rc == 0:
+            res.add_cov(**{"open_finding_%s" % f["id"]: "no longer reproduces"})
+        else:
+            res.violation("repro program of open finding %s fails in a way that is not the recorded one (exit %s)" % (f["id"], rc),
+                          {"corpus": prog, "argv": f.get("argv", []), "exit": rc, "output": out[-1500:]})
+
+
 class Rng:
     """xorshift64* - same generator is implemented in C harnesses where needed."""
     def __init__(self, seed):
